@@ -193,6 +193,15 @@ def backward_walk(ctx, crate, crs, tag):
             and visits_all(b, l) or False
         # `rev` is in PARTIAL_ADAPTORS for encoder loops; here it is the intended direction
         okall = bool(inl) and bool(vin) and all(unconditional_in_loop(b, crs, x[0], allowed_skip_edges=skip_edges)[0] for x in inl + vin)
+        if "is_root" not in skip_kinds and "filter" in loop_adaptors(b, l):
+            # the root decision may equally be dropped by a `.filter(|d| !d.variable.is_root())` in front of the loop
+            for c in crate.bodies:
+                if c.kind == "Closure" and c.root and strip_generics(c.root) == strip_generics(b.key):
+                    for ci, ct in c.calls():
+                        if ct.get("f") and ct["f"]["name"] == "is_root" and any(
+                                s_["p"]["l"] == 0 and s_["r"]["k"] == "un" and s_["r"]["op"] == "Not" and
+                                (operand_place(s_["r"]["a"]) or {}).get("l") == ct["dest"]["l"] for _, _, s_ in c.assigns()):
+                            skip_kinds.add("is_root")
         ctx.ob(R, b.key, "skips-only-uninvolved-or-root", okall and skip_kinds == {"contains", "is_root"}, b.loc(l[0]),
                "every decision that is not the root and is involved has its reason recorded and followed (skip tests: %s)" % sorted(skip_kinds))
     # recursive expansion of learnt clauses
